@@ -362,6 +362,8 @@ def oracle_mech(ops, io, ctx):
                 dtors.add(e[1])
         if ctx.get('count_oracle', True) and st == 0 and k < len(ops) and ops[k] and ops[k][0] == 25 and len(rets) == 2 and rets[0] != rets[1]:
             return 'op %d %s: the count accessor reports %d but %d owning handles refer to that value' % (k, ops[k], rets[0], rets[1])
+        if ctx.get('assume_init_oracle') and st == 2 and k < len(ops) and len(ops[k]) == 3 and ops[k][0] == 23 and ops[k][1] == 16:
+            return 'op %d %s: assume_init panicked; it changes the type of the handle and nothing else, whatever the sharing state' % (k, ops[k])
         if 9999 in rets and st == 0: return 'op %d %s: a handle points outside every known block' % (k, ops[k] if k < len(ops) else '?')
         if 777 in rets and st == 3: return 'op %d: a declined unwrap returned a different handle' % k
     fin = io[-1]
@@ -401,9 +403,10 @@ def gen_mech_for(focuses):
         return cases
     return gen
 
-def mech_stream(focuses, orderings=False, count_oracle=True):
+def mech_stream(focuses, orderings=False, count_oracle=True, ctx_extra=None):
     extra = dict(model_map=mech_model_map) if orderings else dict(model_map=mech_model_map_noord, impl_map=strip_orderings)
     extra['ctx'] = dict(count_oracle=count_oracle)
+    if ctx_extra: extra['ctx'].update(ctx_extra)
     return dict(stream='mech', gen=gen_mech_for(focuses), oracle=oracle_mech, nontrivial=nontrivial_mech, distribution=dist_mech,
                 prep=mech_prep, **extra,
                 rule='2953 systematic scenarios (every operation on every handle kind, sole owner and shared in 9 ways, callbacks with 14 bodies, replace/assign inside with_arc_mut with and without a panic; tools/mechgen.py systematic_cases) followed by random histories of 8..120 (thorough: ..200) handle operations from one PRNG over all 23 handle kinds, 12 constructors, 26 conversion edges, 5 callback forms with nested bodies, injected panics and ~6% malformed operations (tools/mechgen.py); observation per op = status, results, destructor/clone/alloc/dealloc/atomic events; non-trivial = uses at least two of {conversion, borrow-promotion, make_mut/make_unique, unwrap_or_clone, callback, panic, replace/assign, uninit write}; distinct = distinct op lists',
@@ -426,10 +429,10 @@ def atomics_side(facts):
 MECH_ASSUME = ['Rust move/drop/unwind semantics as transcribed in coq/theories/Mech.v (ManuallyDrop, mem::forget, ptr::read = no drop; scope ends = explicit drops); validated on every run by the mech stream',
                'the model and the implementation are compared on sampled histories (tie 2), the theorems hold for all histories of the model']
 
-def mech_prop(focuses, extra_side=None, orderings=False, count_oracle=True):
+def mech_prop(focuses, extra_side=None, orderings=False, count_oracle=True, ctx_extra=None):
     def side(facts):
         return (atomics_side(facts) if orderings else []) + (extra_side(facts) if extra_side else [])
-    return dict(streams=[mech_stream(focuses, orderings, count_oracle)], side_obligations=side,
+    return dict(streams=[mech_stream(focuses, orderings, count_oracle, ctx_extra)], side_obligations=side,
                 facts_view=lambda facts: dict(atomic_sites=[(s['fn'], s['method'], s['orderings']) for s in (facts.get('atomics') or {}).get('sites', [])]),
                 assumptions=MECH_ASSUME)
 
@@ -757,7 +760,7 @@ def c10_side(facts):
     return [('thin_functions_unchanged', bool((PT.get('forms') or {}).get('thin')), 'differing: %s' % PT.get('diffs')),
             ('thin_pointee_is_the_zero_length_stand_in', bool(PT.get('thin_pointee_ok')), str(PT.get('thin_pointee')))]
 PROPS['C10'] = mech_prop([{'thin', 'with'}, {'thin'}, None, {'thin', 'with'}], extra_side=c10_side)
-PROPS['C15'] = mech_prop([{'uninit'}, None, {'uninit'}, {'unique'}])
+PROPS['C15'] = mech_prop([{'uninit'}, None, {'uninit'}, {'unique'}], ctx_extra=dict(assume_init_oracle=True))
 
 
 # ============================================================================
@@ -1527,8 +1530,8 @@ def gen_dpanic(tier, rng):
     # copy-on-write / unwrap_or_clone of a shared value whose type has no drop glue, is not Copy, and whose Clone is not a bitwise copy
     for j in range(0, 4): cases.append(('D%d' % n, [[44 + j, 0, 0]])); n += 1
     # zero-sized headers / payloads with drop glue through the constructors
-    for j in range(0, 6): cases.append(('D%d' % n, [[48 + j, 0, 0]])); n += 1
-    for op in ([29, 1, 0], [20, 40, 0], [45, 1, 1], [40, 1, 0], [54, 0, 0], [48, 1, 0]): cases.append(('D%d' % n, [op])); n += 1
+    for j in range(0, 12): cases.append(('D%d' % n, [[48 + j, 0, 0]])); n += 1
+    for op in ([29, 1, 0], [20, 40, 0], [45, 1, 1], [40, 1, 0], [60, 0, 0], [48, 1, 0]): cases.append(('D%d' % n, [op])); n += 1
     return cases
 
 def oracle_dpanic(ops, io, ctx):
@@ -1538,11 +1541,19 @@ def oracle_dpanic(ops, io, ctx):
     parts = ct_split(o)
     if len(parts) != 3: return 'malformed observation'
     d = parts[1]
-    if 48 <= op[0] < 54:
+    if 48 <= op[0] < 60:
         what = ['UniqueArc::from_header_and_uninit_slice (dropped uninitialised)', 'from_header_and_uninit_slice + assume_init_slice_with_header, shared', 'Arc::from_header_and_iter',
-                'Arc::from_header_and_vec', 'Arc::from(Box<T>)', 'Arc::new'][op[0] - 48]
-        if len(parts[2]) < 4: return 'malformed observation'
-        during, total, elems, bad = parts[2][:4]
+                'Arc::from_header_and_vec', 'Arc::from(Box<T>)', 'Arc::new', 'Arc::try_unwrap by the sole owner', 'Arc::unwrap_or_clone by the sole owner',
+                'Arc::try_unique + UniqueArc::into_inner', 'UniqueArc::new + into_inner', 'UniqueArc::try_from + into_inner', 'Arc::unwrap_or_clone of a shared value'][op[0] - 48]
+        if len(parts[2]) < 5: return 'malformed observation'
+        during, total, elems, bad, outstanding = parts[2][:5]
+        want = 2 if op[0] == 59 else 1
+        if outstanding: return '%s with a zero-sized value: %d block(s) allocated and never released (the block of a zero-sized payload still holds the count)' % (what, outstanding if outstanding < 2 ** 63 else outstanding - 2 ** 64)
+        if op[0] >= 54:
+            if bad: return '%s with a zero-sized value: %d accesses to dead values or releases of memory that was never allocated' % (what, bad)
+            if during != 0: return '%s with a zero-sized value: the value was destroyed %d times before the caller got it' % (what, during)
+            if total != want: return '%s with a zero-sized value: destroyed %d times in all (%d expected)' % (what, total, want)
+            return None
         if bad: return '%s with a zero-sized value: %d accesses to dead values or releases of memory that was never allocated' % (what, bad)
         if during != 0: return '%s with a zero-sized header/payload that has a destructor: it is destroyed %d times during construction, while the handle is alive' % (what, during)
         if total != 1: return '%s with a zero-sized header/payload that has a destructor: destroyed %d times in all (exactly once expected)' % (what, total)
